@@ -125,4 +125,20 @@ def wfMembers (o : Opt) (quote : Bytes → Bytes) : List (Bytes × OutTree) → 
   | (_, t) :: ms => t.WellFormed o quote ∧ wfMembers o quote ms
 end
 
+mutual
+/-- The condition on object names stated on the GO-SIDE names: within every object the names are pairwise
+different after `norm` (for the modelled AppendQuote and either notion of key, `norm` = "ill-formed bytes
+replaced by U+FFFD"; the identity on valid UTF-8). -/
+def OutTree.NamesOK (noDup : Bool) (norm : Bytes → Bytes) : OutTree → Prop
+  | .atom _ => True
+  | .arr ts => namesOKList noDup norm ts
+  | .obj ms => namesOKMembers noDup norm ms ∧ (noDup = true → (ms.map fun m => norm m.1).Nodup)
+def namesOKList (noDup : Bool) (norm : Bytes → Bytes) : List OutTree → Prop
+  | [] => True
+  | t :: ts => t.NamesOK noDup norm ∧ namesOKList noDup norm ts
+def namesOKMembers (noDup : Bool) (norm : Bytes → Bytes) : List (Bytes × OutTree) → Prop
+  | [] => True
+  | (_, t) :: ms => t.NamesOK noDup norm ∧ namesOKMembers noDup norm ms
+end
+
 end JsonV.Model.EncInv
